@@ -111,10 +111,12 @@ InTs(x) == Cmp(x, TsMinUs) >= 0 /\ Cmp(x, TsMaxUs) <= 0
 InDur(x) == Cmp(x, Neg(DurLimUs)) >= 0 /\ Cmp(x, DurLimUs) <= 0
 
 \* ---- text
+\* the fraction of a second, as the JSON mapping of google.protobuf.Timestamp / Duration writes it: three digits, or six when needed
+FracDigits(us6) == IF us6 % 1000 = 0 THEN Pad(us6 \div 1000, 3) ELSE Pad(us6, 6)
 \* RFC 3339 in UTC: 4-digit year; fraction only when the microseconds are not zero
 Rfc3339(us) == LET f == Fields(us, 0) IN
    Pad(f.y, 4) \o <<45>> \o Pad(f.m, 2) \o <<45>> \o Pad(f.d, 2) \o <<84>> \o Pad(f.hh, 2) \o <<58>> \o Pad(f.mm, 2) \o <<58>> \o Pad(f.ss, 2)
-   \o (IF f.us = 0 THEN <<>> ELSE <<46>> \o Pad(f.us, 6)) \o <<90>>
+   \o (IF f.us = 0 THEN <<>> ELSE <<46>> \o FracDigits(f.us)) \o <<90>>
 \* parse  YYYY-MM-DDTHH:MM:SS[.f{1,6}](Z|+HH:MM|-HH:MM)  -> BigInt microseconds, or "bad"
 BadTs == [neg |-> FALSE, m |-> <<-1>>]
 ParseTs(t) ==
@@ -135,8 +137,10 @@ ParseTs(t) ==
                    off == IF Len(zone) = 1 THEN 0 ELSE (IF zone[1] = 45 THEN -1 ELSE 1) * (Num(SubSeq(zone, 2, 3)) * 60 + Num(SubSeq(zone, 5, 6)))
                IN IF y < 1 \/ mo < 1 \/ mo > 12 \/ dd < 1 \/ dd > DaysInMonth(y, mo) \/ hh > 23 \/ mi > 59 \/ ss > 59 THEN BadTs
                   ELSE Sub(Join(DaysFromCivil(y, mo, dd), hh * 3600 + mi * 60 + ss, us), Minutes(off))
-\* duration text: "<seconds>s" for whole seconds
-DurText(us) == LET q == TDiv(us, Mega) IN (IF us.neg THEN <<45>> ELSE <<>>) \o [j \in 1..Len(ToDigits(q.m, 10)) |-> 48 + ToDigits(q.m, 10)[j]] \o <<115>>
+\* duration text: "<seconds>s", with the fraction of a second when there is one (the sign stands in front of the whole text)
+DurText(us) == LET q == TDiv(us, Mega)  r == ToInt(Mk(FALSE, TRem(us, Mega).m)) IN
+               (IF us.neg /\ us.m # <<>> THEN <<45>> ELSE <<>>) \o [j \in 1..Len(ToDigits(q.m, 10)) |-> 48 + ToDigits(q.m, 10)[j]]
+               \o (IF r = 0 THEN <<>> ELSE <<46>> \o FracDigits(r)) \o <<115>>
 \* parse  [+-] ( digits [ . digits ] unit )+   unit in h m s ms us ns; the total must be a whole number of microseconds
 UnitMicros(u) == CASE u = <<104>> -> Mul(FromInt(3600), Mega) [] u = <<109>> -> Mul(FromInt(60), Mega) [] u = <<115>> -> Mega
                    [] u = <<109, 115>> -> FromInt(1000) [] u = <<117, 115>> -> One [] OTHER -> Z
